@@ -1,0 +1,17 @@
+//go:build verif
+
+package pod
+
+import "github.com/boz/kcache"
+
+// VerifNewSubscription exposes the typed subscription wrapper over an
+// arbitrary core subscription to the out-of-tree verification harness.  It
+// only exists when built with `-tags verif`.
+func VerifNewSubscription(parent kcache.Subscription) Subscription {
+	return newSubscription(parent)
+}
+
+// VerifNewFilterSubscription: the same for the typed filter subscription.
+func VerifNewFilterSubscription(parent kcache.FilterSubscription) FilterSubscription {
+	return newFilterSubscription(parent)
+}
